@@ -589,8 +589,16 @@ func (d *driver) replay(path string, res *Result) {
 		d.errs = append(d.errs, "replay file: "+err.Error())
 		return
 	}
-	// a replay ignores known_findings: it must show the violation itself
-	d.known = nil
+	// a replay must show the recorded violation itself even if it is a listed
+	// finding, while other listed findings that fired earlier in the same run
+	// are passed over exactly as in the original run
+	k := d.known
+	d.known = func(sig string) (string, bool) {
+		if sig == rf.Sig || k == nil {
+			return "", false
+		}
+		return k(sig)
+	}
 	r := d.runOnce(rf.RunSeed, NewReplayTape(rf.Tape), true)
 	rr := &ReplayResult{WantSig: rf.Sig, WantHash: rf.LogHash, GotHash: fmt.Sprintf("%016x", r.LogHash())}
 	if v := r.Violation(); v != nil {
